@@ -507,8 +507,21 @@ func c19() []*Ob {
 }
 
 func usesConstString(fn *ssa.Function, s string) bool {
-	if s == "" {
+	return usesConstStringD(fn, s, 2, map[*ssa.Function]bool{})
+}
+
+// usesConstStringD also looks into the repo helpers fn calls (the path may be built by a private helper).
+func usesConstStringD(fn *ssa.Function, s string, depth int, seen map[*ssa.Function]bool) bool {
+	if s == "" || fn == nil || seen[fn] {
 		return false
+	}
+	seen[fn] = true
+	if depth > 0 {
+		for _, call := range CallsInAll(fn, nil) {
+			if h := StaticCallee(call); h != nil && h.Blocks != nil && Current != nil && Current.InRepo(h) && usesConstStringD(h, s, depth-1, seen) {
+				return true
+			}
+		}
 	}
 	for _, f := range WithClosures(fn) {
 		for _, b := range f.Blocks {
